@@ -415,11 +415,11 @@ def runOp (be : Backend) (args : List String) : M String := do
       let b ← draw 32
       let a ← draw 32
       -- the challenge is only drawn when the server accepts; peek without consuming on failure
-      let r0 := runLogin C be cus cps cuc cpc (via != "0") salt b a (List.replicate 16 0)
+      let r0 := runLogin C be cus cps cuc cpc ((nat! via) % 10 != 0) salt b a (List.replicate 16 0)
       match r0 with
       | .ok .. =>
         let chal ← draw 16
-        match runLogin C be cus cps cuc cpc (via != "0") salt b a chal with
+        match runLogin C be cus cps cuc cpc ((nat! via) % 10 != 0) salt b a chal with
         | .ok ks kc A B m1 m2 v => pure s!"ok {hex ks} {hex kc} {hex A} {hex B} {hex m1} {hex m2} {hex v}"
         | .fail st => pure s!"fail {st}"
         | .panic _ => throw "panic"
